@@ -767,6 +767,9 @@ static ColoquinteParameters genC06Params(vh::Rng &g, std::string &desc, int &eff
     // margins and are dropped, or all of them are and the unclipped rows are kept
     rl.sideMargin = g.chance(1, 2) ? 0.9 : (g.chance(1, 6) ? uni(g, 0.9, 100.0) : uni(g, 0.0, 0.9));
     rl.coarseningLimit = logUni(g, 1.0, 1000.0);
+    // no check() constrains the coarsening limit (C19 `unpolicedFields`): one case in eight takes a value a user would
+    // not choose — negative, zero, tiny, huge — which must change nothing the property speaks about
+    if (g.chance(1, 8)) { static const double odd[] = {-5.0, 0.0, 1.0e-6, 1.0e12}; rl.coarseningLimit = odd[g.range(0, 3)]; }
   }
   (void)bigger;
   int bm = g.range(0, 9);
